@@ -234,7 +234,7 @@ Definition with_data (qc : mcirc) (d : circ) : mcirc := mkMC (mnq qc) (mnc qc) (
 Definition build1 (gh gsx : nat) (env : benv) (qc : mcirc) (ids : list (list nat)) (ms : jkey) (g : ogroup)
   : res mcirc :=
   res_bind (append_measurement_register qc (og_indices g)) (fun q1 =>
-  res_bind (decompose env (mdata q1) (mnc q1) ids (Some (map Z.of_nat ms))) (fun dk =>
+  res_bind (decompose env (mdata q1) (mnc q1) ids (Some (map (fun m => Some (Z.of_nat m)) ms))) (fun dk =>
     let q2 := mkMC (mnq q1) (mnc q1 + snd dk) (mcregs q1 ++ [(false, seq (mnc q1) (snd dk))]) (fst dk) in
     let q3 := match og_indices g with
               | [] => with_data q2 (remove_final_resets (mnq q2) (mdata q2))
